@@ -29,6 +29,7 @@ macro_rules
     | with_reducible exact spec_nextToken
     | with_reducible exact spec_skipToken
     | with_reducible exact spec_addVariable _
+    | with_reducible exact spec_assignable _
     | with_reducible exact spec_addRoutine _ _
     | with_reducible exact spec_addParam _ _
     | with_reducible exact Spec.outOfFuel
